@@ -256,3 +256,9 @@ pub proof fn lemma_bits_of_subrange(bytes: Seq<u8>, a: int, b: int)
         assert(sub[i / 8] == bytes[a + i / 8]);
     }
 }
+
+/// growing by zero bytes changes nothing
+pub proof fn lemma_grown_same_len(b0: Seq<u8>, b1: Seq<u8>)
+    requires grown(b0, b1)
+    ensures b1.len() == b0.len() ==> b1 =~= b0
+{ }
